@@ -1,0 +1,112 @@
+//go:build verif
+
+package search
+
+// Export hooks for runtime monitoring (build tag verif only). This file adds
+// read-only views and thin wrappers; it changes no existing behaviour.
+
+// VerifTreeList gives access to the unexported AVL treeList.
+type VerifTreeList struct {
+	l *treeList
+}
+
+func VerifNewTreeList(values Values) *VerifTreeList {
+	return &VerifTreeList{l: newTreeList(values)}
+}
+
+func (v *VerifTreeList) Insert(x Value)  { v.l.Insert(x) }
+func (v *VerifTreeList) Delete(x Value)  { v.l.Delete(x) }
+func (v *VerifTreeList) DeleteKey(k Key) { v.l.DeleteKey(k) }
+func (v *VerifTreeList) Len() int        { return v.l.Len() }
+func (v *VerifTreeList) Lookup(k Key) (Value, bool) {
+	return v.l.Lookup(k)
+}
+
+// VerifTreeIterator is the part of treeListIterator a monitor drives.
+type VerifTreeIterator interface {
+	Next() bool
+	Advance(key Key) bool
+	Value() Value
+	Key() Key
+	EstimateLength() int
+}
+
+func (v *VerifTreeList) Begin() VerifTreeIterator { return v.l.Begin() }
+
+// VerifNode describes one node of the tree as found by an in-order walk.
+type VerifNode struct {
+	Value    Value
+	Balance  int  // the stored balance field
+	Height   int  // computed: 1 + max(height(left), height(right))
+	LeftH    int  // computed height of the left subtree
+	RightH   int  // computed height of the right subtree
+	Depth    int  // 0 for the root
+	ParentOK bool // the parent pointer is the node we descended from (nil for the root)
+	Deleted  bool // the node carries the deleted mark although it is reachable
+	Left     int  // in-order index of the left child, -1 if none
+	Right    int  // in-order index of the right child, -1 if none
+}
+
+// VerifWalk is the result of walking a tree.
+type VerifWalk struct {
+	Nodes     []VerifNode // in-order
+	Root      int         // in-order index of the root, -1 for an empty tree
+	Truncated bool        // more than the node budget was reachable (a cycle, or a far larger tree than expected)
+	Len       int         // the list's own length field
+}
+
+func verifWalk(l *treeList, budget int) VerifWalk {
+	w := VerifWalk{Root: -1, Len: l.length}
+	var walk func(n *treeNode, parent *treeNode, depth int) (int, int)
+	walk = func(n *treeNode, parent *treeNode, depth int) (index int, height int) {
+		if n == nil {
+			return -1, 0
+		}
+		if len(w.Nodes) >= budget || depth > budget {
+			w.Truncated = true
+			return -1, 0
+		}
+		li, lh := walk(n.left, n, depth+1)
+		if w.Truncated {
+			return -1, 0
+		}
+		me := len(w.Nodes)
+		w.Nodes = append(w.Nodes, VerifNode{Value: n.v, Balance: int(n.balance), Depth: depth,
+			ParentOK: n.parent == parent, Deleted: n.parent == n, Left: li, Right: -1, LeftH: lh})
+		ri, rh := walk(n.right, n, depth+1)
+		if w.Truncated {
+			return -1, 0
+		}
+		h := lh
+		if rh > h {
+			h = rh
+		}
+		w.Nodes[me].Right = ri
+		w.Nodes[me].RightH = rh
+		w.Nodes[me].Height = 1 + h
+		return me, 1 + h
+	}
+	w.Root, _ = walk(l.root, nil, 0)
+	return w
+}
+
+// Walk visits at most budget nodes.
+func (v *VerifTreeList) Walk(budget int) VerifWalk { return verifWalk(v.l, budget) }
+
+// VerifWalkToken walks the posting tree of one token of a TreeIndex.
+func (t *TreeIndex) VerifWalkToken(token string, budget int) (VerifWalk, bool) {
+	if e, ok := t.lists.Lookup(token); ok {
+		return verifWalk(e.(treeIndexEntry).list, budget), true
+	}
+	return VerifWalk{Root: -1}, false
+}
+
+// VerifWalkTokens walks the tree of tokens of a TreeIndex; node values are
+// returned as the token strings.
+func (t *TreeIndex) VerifWalkTokens(budget int) VerifWalk {
+	w := verifWalk(t.lists, budget)
+	for i := range w.Nodes {
+		w.Nodes[i].Value = w.Nodes[i].Value.(treeIndexEntry).token
+	}
+	return w
+}
